@@ -30,6 +30,7 @@ from common import Model, hx, exc_name
 logging.disable(logging.CRITICAL)
 
 LEAN_TARGETS = ["NfcVerif.Props.C13", "drv_c13", "NfcVerif.Props.TablesFrame"]
+PARTS = ["tty"]   # props/c13_tty.py: the real serial transport (TTY.read/write) under Chipset.command and exchange()
 
 THEOREMS = [
     "NfcVerif.C13.host_command_documented",
